@@ -73,11 +73,11 @@ EVIDENCE_NOTES = [
     "async_destroy_clause_in_full combines it with async_destroy_drains and async_no_leak_on_full.",
     "log_no_oob_refuted_before_repair and async_leak_and_hang_before_repair record the defects of the code as first found; "
     "the model the implementation is compared with is the repaired one (commits 59dfdd3, ad89fa8, 0e247d7, cd82dd8).",
-    "known finding stale-lowest-level (pattern of DESIGN.md 3.2): lowering an attached handler's level below the logger's "
-    "snapshot lowest_log_level makes the logger drop calls that are at or above the handler's level; "
-    "handler_level_filter_as_coded states what the code computes for every history, handler_level_filter_exact_partial the "
-    "property outside the class, handler_level_filter_refuted the witness; in-class histories are generated only when the "
-    "class is listed in known_findings.txt (replay findings/C16-stale-lowest-level.case).",
+    "handler levels are live state: handler_level_filter_exact holds for every history of add_handler / set_level / "
+    "log calls on the repaired code (the log functions' early-out asks the attached handlers, "
+    "fixes/C16-stale-lowest-level.patch); handler_level_filter_stale_before_repair records the defect (snapshot "
+    "lowest_log_level dropped calls after a handler was lowered); corpus/C16/regress-stale-lowest-level.case is its "
+    "regression case.  The interleaving models use the static threshold min_level (handler_level_prefilter_static).",
     "quick tier: the extracted handler_write is index-level (quadratic in unary nat), so the quick tier uses a coarse length "
     "grid plus the exact boundary of every built-in handler kind x formatter (edge-*); the thorough tier uses the full grid.",
 ]
@@ -168,6 +168,10 @@ def _seq(name, logger, hs, ops, clock=(1700000000, 123456789), meta=None):
             lines.append("setlevel %d %d" % (o[1], o[2]))
         elif o[0] == "fail":
             lines.append("failmalloc %d" % o[1])
+        elif o[0] == "hold":
+            lines.append("hold %d %d %s %s" % (o[1], o[2], o[3], _hx(o[4])))
+        elif o[0] == "release":
+            lines.append("release")
     return V.Case(name, lines, meta or {})
 
 
@@ -225,6 +229,12 @@ def corpus_cases(ctx):
         _thr("corpus-vs-sync-contended", "vs", "sync", [("file", 0, "simple"), ("cap", 0, "complicated")], 3, 2, 12,
              sched="list - " + " ".join(["0", "1", "2"] * 100)),
     ]
+    # regression cases kept as files (corpus/C16/*.case)
+    d = os.path.join(V.VERIF, "corpus", ID)
+    if os.path.isdir(d):
+        for f in sorted(os.listdir(d)):
+            if f.endswith(".case"):
+                cs.append(V.Case.load(os.path.join(d, f)))
     return cs
 
 
@@ -303,10 +313,8 @@ def generate(rng, tier):
         cases.append(_seq("mfail-%d" % i, "async 64", [("cap", 256, "simple")], ops))
     # (e) handler levels changed with muggle_log_handler_set_level between calls (the level is live state, the
     # logger's lowest_log_level a snapshot): 1, 2 and 3 handlers, sync and async, raised / above FATAL / below TRACE /
-    # lowered but not below the snapshot.  Histories that lower a level below the snapshot are the known finding
-    # stale-lowest-level and are generated only when that class is recorded.
-    fatal = params().get("fatal", 1280)
-    stale_listed = any(k["class"] == "stale-lowest-level" for k in V.load_known_findings(ID))
+    # lowered, also below the level the handler had when it was attached (the logger's early-out must follow the live
+    # levels: repaired by fixes/C16-stale-lowest-level.patch).
     for logger in ("sync", "async 64"):
         lg = logger.split()[0]
         cases.append(_seq("lvl-raise-1-%s" % lg, logger, [("cap", 256, "simple")],
@@ -321,20 +329,40 @@ def generate(rng, tier):
         for nhs in (1, 2, 3):
             for r in range(2 if tier == "quick" else 12):
                 hs = [(rng.choice(["cap", "file"]), rng.choice(allv), rng.choice(["simple", "complicated"])) for _ in range(nhs)]
-                snap = min([fatal] + [h[1] for h in hs])
                 ops = []
                 for j in range(rng.range(6, 12)):
                     if rng.chance(1, 3):
-                        ops.append(("set", rng.below(nhs), rng.choice([v for v in allv + [2000, 5000] if v >= snap])))
+                        ops.append(("set", rng.below(nhs), rng.choice(allv + [2000, 5000, -300])))
                     else:
                         ops.append(("log", rng.choice(allv + [2000]), 20 + j, "s", b"m%d" % j))
                 cases.append(_seq("lvl-%s-%d-%d" % (lg, nhs, r), logger, hs, ops))
-        if stale_listed:
-            cases.append(_seq("lvl-stale-%s" % lg, logger, [("cap", 768, "simple"), ("cap", 1024, "simple")],
+        if True:
+            cases.append(_seq("lvl-lower-%s" % lg, logger, [("cap", 768, "simple"), ("cap", 1024, "simple")],
                               [("log", 512, 1, "s", b"a"), ("set", 0, 256), ("log", 512, 2, "s", b"b"), ("log", 800, 3, "s", b"c"),
                                ("set", 1, 2000), ("log", 1280, 4, "s", b"d")]))
-            cases.append(_seq("lvl-stale-1-%s" % lg, logger, [("file", 512, "simple")],
+            cases.append(_seq("lvl-lower-1-%s" % lg, logger, [("file", 512, "simple")],
                               [("set", 0, 256), ("log", 256, 1, "s", b"a"), ("log", 512, 2, "s", b"b")]))
+    # async logger, level changed while messages wait in the queue (writer thread held inside handler 0's write):
+    # the waiting messages meet the levels as they are when the writer thread processes them
+    cases.append(_seq("lvl-held-raise-1", "async 64", [("cap", 512, "simple")],
+                      [("hold", 512, 1, "s", b"h0"), ("log", 512, 2, "s", b"queued-then-raised"), ("log", 1024, 3, "s", b"stays"),
+                       ("set", 0, 768), ("release",), ("log", 512, 4, "s", b"below-now"), ("log", 768, 5, "s", b"ok")]))
+    cases.append(_seq("lvl-held-lower-2", "async 64", [("cap", 768, "complicated"), ("file", 1024, "simple")],
+                      [("hold", 768, 1, "s", b"h0"), ("log", 800, 2, "s", b"a"), ("set", 1, 256), ("log", 300, 3, "s", b"only-after-lowering"),
+                       ("set", 0, 2000), ("release",), ("log", 1280, 4, "s", b"b")]))
+    for r in range(2 if tier == "quick" else 10):
+        nhs = rng.range(1, 3)
+        hs = [("cap", rng.choice(LEVELS[:4]), rng.choice(["simple", "complicated"]))] + \
+             [(rng.choice(["cap", "file"]), rng.choice(LEVELS), "simple") for _ in range(nhs - 1)]
+        ops = [("hold", hs[0][1], 1, "s", b"h0")]
+        for j in range(rng.range(3, 8)):
+            if rng.chance(1, 3):
+                ops.append(("set", rng.below(nhs), rng.choice(LEVELS + [1536])))
+            else:
+                ops.append(("log", rng.choice(LEVELS), 10 + j, "s", b"q%d" % j))
+        ops.append(("release",))
+        ops.append(("log", rng.choice(LEVELS), 30, "s", b"after"))
+        cases.append(_seq("lvl-held-%d" % r, "async 64", hs, ops))
     # (f) real threads
     tn = [1, 2, 4, 8, 16]
     msgs = 40 if tier == "quick" else 400
@@ -429,8 +457,10 @@ def _parse_case(case):
             cfg["ops"].append(("set", int(w[1]), int(w[2])))
         elif w[0] == "failmalloc" and len(w) == 2:
             cfg["ops"].append(("fail", int(w[1])))
-        elif w[0] == "log" and len(w) >= 4:
-            cfg["ops"].append(("log", int(w[1]), int(w[2]), w[3], bytes.fromhex(w[4]) if len(w) > 4 else b""))
+        elif w[0] in ("log", "hold") and len(w) >= 4:
+            cfg["ops"].append((w[0], int(w[1]), int(w[2]), w[3], bytes.fromhex(w[4]) if len(w) > 4 else b""))
+        elif w[0] == "release":
+            cfg["ops"].append(("release",))
         elif w[0] == "threads" and len(w) == 4:
             cfg["threads"] = (int(w[1]), int(w[2]), int(w[3]))
         elif w[0] == "lossy":
@@ -523,36 +553,18 @@ def _mon_seq(cfg, lines, limit):
         if exp not in lines:
             return "add_handler #%d: expected %r" % (i, exp)
     levels = [h[1] for h in cfg["hs"]]
-    lowest_at_add = min([p.get("fatal", 1280)] + [levels[i] for i in range(len(levels)) if att[i]])
     expect = {}
-    coded = {}          # what the code's stale snapshot lets through (known finding stale-lowest-level)
     rets = {i: [] for i in range(len(cfg["hs"]))}
-    rets_coded = {i: [] for i in range(len(cfg["hs"]))}
-    fail = 0
-    for o in cfg["ops"]:
-        if o[0] == "set":
-            if 0 <= o[1] < len(levels):
-                levels[o[1]] = o[2]
-            continue
-        if o[0] == "fail":
-            fail = o[1]
-            continue
-        _, level, srcline, tmpl, content = o
-        text = (b"%d|" % srcline + content) if tmpl == "ds" else content
-        payload = text[:limit - 1]
-        dropped = cfg["async"] and fail in (1, 2)
-        fail = 0
-        for i, (kind, _hl, fmt) in enumerate(cfg["hs"]):
-            if not att[i]:
+    nhs = len(cfg["hs"])
+
+    def process(msg, first):
+        """the handlers first.. test the message against their CURRENT levels"""
+        level, srcline, payload = msg
+        for i in range(first, nhs):
+            kind, _hl, fmt = cfg["hs"][i]
+            if not att[i] or level < levels[i]:
                 continue
-            if level < levels[i] or dropped:
-                continue
-            # the property: level >= the handler's level AT THE TIME OF THE CALL -> exactly one line.
-            # (the code also tests the logger's snapshot lowest_log_level, taken in add_handler)
-            stale = level < lowest_at_add
             line = cut_line(format_line(fmt, level, srcline, 4242, cfg["clock"], payload), limit)
-            if not stale:
-                rets_coded[i].append(len(line))
             rets[i].append(len(line))
             if kind.startswith("con"):
                 tag = "err" if level >= warning else "out"
@@ -561,8 +573,58 @@ def _mon_seq(cfg, lines, limit):
             else:
                 tag = "file"
             expect[(tag, i)] = expect.get((tag, i), b"") + line
-            if not stale:
-                coded[(tag, i)] = coded.get((tag, i), b"") + line
+
+    # sync logger: a call is matched against every handler's level at the time of the call.
+    # async logger: the call is accepted if some attached handler's level admits it at the time of the call
+    # (the early-out of the log function); each handler's level is then tested when the writer thread PROCESSES
+    # the message - normally at once, but while the harness holds the writer thread inside handler 0's write
+    # (hold ... release) the calls wait in the queue and meet the levels as they are at release time.
+    fail = 0
+    held, pending = None, []
+
+    def release():
+        nonlocal held, pending
+        if held is not None:
+            process(held, 1)
+            for m in pending:
+                process(m, 0)
+        held, pending = None, []
+
+    for o in cfg["ops"]:
+        if o[0] == "set":
+            if 0 <= o[1] < len(levels):
+                levels[o[1]] = o[2]
+            continue
+        if o[0] == "fail":
+            fail = o[1]
+            continue
+        if o[0] == "release":
+            release()
+            continue
+        op, level, srcline, tmpl, content = o
+        text = (b"%d|" % srcline + content) if tmpl == "ds" else content
+        msg = (level, srcline, text[:limit - 1])
+        dropped = cfg["async"] and fail in (1, 2)
+        fail = 0
+        if dropped:
+            continue
+        if not cfg["async"]:
+            process(msg, 0)
+            continue
+        if not any(att[i] and level >= levels[i] for i in range(nhs)):
+            continue
+        if held is not None:
+            pending.append(msg)
+        elif op == "hold" and nhs > 0 and att[0] and cfg["hs"][0][0] == "cap" and level >= levels[0]:
+            saved = list(att)
+            for j in range(1, nhs):
+                att[j] = False
+            process(msg, 0)             # handler 0 writes it now (and stops inside that write)
+            att[:] = saved
+            held = msg
+        else:
+            process(msg, 0)
+    release()
     f = [ln for ln in lines if ln.startswith("F ")]
     if not f:
         return "no summary line (run did not finish)"
@@ -586,11 +648,6 @@ def _mon_seq(cfg, lines, limit):
             g = got.get((tag, i))
             if g is None:
                 return "no '%s %d' stream in the output" % (tag, i)
-            if g != e and g == coded.get((tag, i), b""):
-                return ("stale-lowest-level: handler %d (%s) misses %d byte(s) of lines whose level is at or above the "
-                        "handler's current level: the handler's level was lowered with muggle_log_handler_set_level after "
-                        "add_handler and the logger's cached lowest_log_level (%d) still drops those calls" % (
-                            i, kind, len(e) - len(g), lowest_at_add))
             if g != e:
                 k = _first_diff(g, e)
                 return ("handler %d (%s) stream '%s': %d bytes, expected %d (one formatted line, cut at %d bytes, per "
@@ -634,6 +691,16 @@ def _check_streams_threads(cfg, lines, limit, lossy, partial_ok=False):
         got = _streams(lines)
     except ValueError as e:
         return str(e)
+    for ln in lines:
+        if ln.startswith("retention "):
+            w = ln.split()
+            nfiles, mx = int(w[2].split("=")[1]), int(w[3].split("=")[1])
+            if nfiles >= mx:
+                # the size-rotating handler keeps backup_count backups and discards the oldest beyond that: lines
+                # removed with their whole backup file are not lost lines; the scenario is mis-sized
+                raise RuntimeError("harness error: scenario mis-sized for handler %s: %d backup files of at most %d, the "
+                                   "rotation's retention has discarded the oldest backups (not a property violation)" % (
+                                       w[1], nfiles, mx))
     for i, (kind, hl, fmt) in enumerate(cfg["hs"]):
         g = got.get(("file", i))
         if g is None:
@@ -805,6 +872,7 @@ def canon(lines):
     """Threaded runs: any interleaving of whole lines is the same result (sort the lines of each
     stream); lossy runs (queue overflow with real threads): which calls are dropped is not
     determined, only the summary is compared."""
+    lines = [ln for ln in lines if not ln.startswith("retention ")]     # harness bookkeeping (monitor only)
     if "mode thr" not in lines:
         return lines
     lossy = "lossy" in lines
@@ -863,21 +931,7 @@ def known_class(case, failure_text):
     if cfg["mode"] == "vs" and cfg["async"] and usable_capacity(cfg["cap"]) == 0 and failure_text and \
             "does not terminate" in failure_text:
         return "async-capacity-unusable"
-    if cfg["mode"] == "seq" and failure_text and failure_text.startswith("stale-lowest-level") and in_stale_class(cfg):
-        return "stale-lowest-level"
     return None
-
-
-def in_stale_class(cfg):
-    """Mirror of the Coq predicate in_stale_class: some setlevel lowers an attached handler's level below the
-    logger's snapshot (min of FATAL and the levels the handlers had when they were attached)."""
-    att = _attached(cfg)
-    levels = [h[1] for h in cfg["hs"]]
-    snap = min([params().get("fatal", 1280)] + [levels[i] for i in range(len(levels)) if att[i]])
-    for o in cfg["ops"]:
-        if o[0] == "set" and 0 <= o[1] < len(levels) and att[o[1]] and o[2] < snap:
-            return True
-    return False
 
 
 MANIFEST = {
